@@ -2,7 +2,7 @@
 # seedtest.sh <worktree> <property> : confirm a seeded change (baseline passes, demo fails with / passes without) and run the check against it
 wt=$1; pid=$2
 cd $wt || exit 2
-echo "== baseline with change: $(/tmp/mutkit/baseline.sh $wt | tail -1)"
+echo "== baseline with change: $(/verif/vp/baseline.sh $wt | tail -1)"
 bash MUTANT/demo.sh > /tmp/seed_demo_with.log 2>&1; echo "== demo with change: exit $?"
 git diff -- src include > /tmp/seed_patch.diff
 git checkout -- src include
